@@ -29,24 +29,6 @@ theorem Phase.run_error_of_noStop (ph : Phase σ α) (h : ph.NoStop) (e : Nat) :
       simp only [h.2 s']
       exact ih s'
 
-/-- A loop whose body never fails ends normally on a child that just closed. -/
-theorem Phase.run_ok_of_noFail (ph : Phase σ α) (h : ph.NoFail) :
-    ∀ (cs : List α) (s : σ), ∃ s', (ph.run none s cs).2 = .ok s' := by
-  intro cs
-  induction cs with
-  | nil => intro s; exact ⟨s, by simp [Phase.run]⟩
-  | cons c cs ih =>
-    intro s
-    simp only [Phase.run]
-    by_cases hb : ph.stopBefore s = true
-    · exact ⟨s, by simp [hb]⟩
-    · obtain ⟨r, hr⟩ := h s c
-      obtain ⟨s', outs⟩ := r
-      simp only [hb, hr]
-      by_cases ha : ph.stopAfter s' = true
-      · exact ⟨s', by simp [ha]⟩
-      · simp only [ha]; exact ih s'
-
 /-- `t` is what a task sends in the faulty run, `t0` in the fault-free run: either the same, or
 an error-terminated prefix. -/
 def Rel (t t0 : Tr α) : Prop := t = t0 ∨ (t.fin.isSome = true ∧ t.chunks <+: t0.chunks)
@@ -169,55 +151,62 @@ theorem Op2.exec_rel (o : Op2 α) {l l0 r r0 : Tr α} (hl : Rel l l0) (hr : Rel 
     rw [hc]
     exact ⟨rfl, List.IsPrefix.trans hp (Op2.cont_chunks_prefix o r0 _)⟩
 
-theorem applyFault_rel (ft : Option Fault) (hk : ∀ f, ft = some f → f.kind = .error)
-    {t t0 : Tr α} (h : Rel t t0) : Rel (applyFault ft t) t0 := by
+theorem applyFault_rel (ft : Option Fault) {t t0 : Tr α} (h : Rel t t0) : Rel (applyFault ft t) t0 := by
   cases ft with
   | none => exact h
   | some f =>
-    have hk' := hk f rfl
     unfold applyFault
     simp only
     by_cases hlt : f.k < t.items
-    · simp only [hlt, if_true, hk']
+    · simp only [hlt, if_true]
       right
-      exact ⟨rfl, List.IsPrefix.trans (List.take_prefix _ _) h.prefix⟩
+      cases f.kind <;> exact ⟨rfl, List.IsPrefix.trans (List.take_prefix _ _) h.prefix⟩
     · simp only [hlt, if_false]; exact h
 
-/-- Under error-only faults every task's trace is related to its fault-free trace. -/
-theorem Plan.tr_rel : ∀ (p : Plan α), p.NoPanic → Rel p.tr p.clean.tr
-  | .leaf ft out, h => by
+/-- Whatever faults are armed (errors, panics, any number, anywhere) every task's trace is related
+to its fault-free trace: the same, or an error-terminated prefix. -/
+theorem Plan.tr_rel : ∀ (p : Plan α), Rel p.tr p.clean.tr
+  | .leaf ft out => by
     simp only [Plan.tr, Plan.clean, applyFault]
-    exact applyFault_rel ft h (Or.inl rfl)
-  | .unary ft o c, h => by
+    exact applyFault_rel ft (Or.inl rfl)
+  | .unary ft o c => by
     simp only [Plan.tr, Plan.clean]
-    have ih := Plan.tr_rel c h.2
+    have ih := Plan.tr_rel c
     have : applyFault none (o.exec c.clean.tr) = o.exec c.clean.tr := rfl
     rw [this]
-    exact applyFault_rel ft h.1 (Op1.exec_rel o ih)
-  | .binary ft o l r, h => by
+    exact applyFault_rel ft (Op1.exec_rel o ih)
+  | .binary ft o l r => by
     simp only [Plan.tr, Plan.clean]
-    have ihl := Plan.tr_rel l h.2.1
-    have ihr := Plan.tr_rel r h.2.2
+    have ihl := Plan.tr_rel l
+    have ihr := Plan.tr_rel r
     have : applyFault none (o.exec l.clean.tr r.clean.tr) = o.exec l.clean.tr r.clean.tr := rfl
     rw [this]
-    exact applyFault_rel ft h.1 (Op2.exec_rel o ihl ihr)
+    exact applyFault_rel ft (Op2.exec_rel o ihl ihr)
 
 /-- An `ErrHit` plan's root task ends with an `Err` item. -/
 theorem Plan.errHit_fin : ∀ (p : Plan α), p.ErrHit → ∃ e, p.tr.fin = some e
   | .leaf ft out, h => by
-    obtain ⟨k, hft, hk⟩ := h
+    obtain ⟨k, kd, hft, hk⟩ := h
     subst hft
-    exact ⟨0, by simp [Plan.tr, applyFault, hk]⟩
+    cases kd
+    · exact ⟨0, by simp [Plan.tr, applyFault, hk]⟩
+    · exact ⟨2, by simp [Plan.tr, applyFault, hk]⟩
   | .unary ft o c, h => by
-    rcases h with ⟨k, hft, hk⟩ | ⟨hft, hns, hc⟩
-    · subst hft; exact ⟨0, by simp [Plan.tr, applyFault, hk]⟩
+    rcases h with ⟨k, kd, hft, hk⟩ | ⟨hft, hns, hc⟩
+    · subst hft
+      cases kd
+      · exact ⟨0, by simp [Plan.tr, applyFault, hk]⟩
+      · exact ⟨2, by simp [Plan.tr, applyFault, hk]⟩
     · subst hft
       obtain ⟨e, he⟩ := Plan.errHit_fin c hc
       obtain ⟨e', he'⟩ := Phase.run_error_of_noStop o.ph hns e c.tr.chunks o.init
       exact ⟨e', by simp [Plan.tr, applyFault, Op1.exec, he, he', finish]⟩
   | .binary ft o l r, h => by
-    rcases h with ⟨k, hft, hk⟩ | ⟨hft, hnl, hnr, hc⟩
-    · subst hft; exact ⟨0, by simp [Plan.tr, applyFault, hk]⟩
+    rcases h with ⟨k, kd, hft, hk⟩ | ⟨hft, hnl, hnr, hc⟩
+    · subst hft
+      cases kd
+      · exact ⟨0, by simp [Plan.tr, applyFault, hk]⟩
+      · exact ⟨2, by simp [Plan.tr, applyFault, hk]⟩
     · subst hft
       simp only [Plan.tr, applyFault, Op2.exec]
       cases hres : (o.phL.run l.tr.fin o.init l.tr.chunks).2 with
@@ -231,44 +220,6 @@ theorem Plan.errHit_fin : ∀ (p : Plan α), p.ErrHit → ∃ e, p.tr.fin = some
         · obtain ⟨e, he⟩ := Plan.errHit_fin r hc
           obtain ⟨e', he'⟩ := Phase.run_error_of_noStop o.phR hnr e r.tr.chunks s
           exact ⟨e', by simp [he, he', finish]⟩
-
-theorem applyFault_panic_fin (ft : Option Fault) (hk : ∀ f, ft = some f → f.kind = .panic)
-    (t : Tr α) (ht : t.fin = none) : (applyFault ft t).fin = none := by
-  cases ft with
-  | none => exact ht
-  | some f =>
-    have := hk f rfl
-    unfold applyFault
-    simp only
-    by_cases hlt : f.k < t.items
-    · simp [hlt, this]
-    · simp [hlt, ht]
-
-/-- With only panics armed (and no operator failing by itself) no task ever sends an `Err`. -/
-theorem Plan.onlyPanics_fin : ∀ (p : Plan α), p.OnlyPanics → p.tr.fin = none
-  | .leaf ft out, h => by
-    simp only [Plan.tr]
-    exact applyFault_panic_fin ft h.1 out h.2
-  | .unary ft o c, h => by
-    obtain ⟨hk, hnf, hend, hc⟩ := h
-    simp only [Plan.tr]
-    apply applyFault_panic_fin ft hk
-    have ih := Plan.onlyPanics_fin c hc
-    obtain ⟨s', hs'⟩ := Phase.run_ok_of_noFail o.ph hnf c.tr.chunks o.init
-    obtain ⟨more, hm⟩ := hend s'
-    simp [Op1.exec, ih, hs', finish, hm]
-  | .binary ft o l r, h => by
-    obtain ⟨hk, hnl, hnr, hend, hl, hr⟩ := h
-    simp only [Plan.tr]
-    apply applyFault_panic_fin ft hk
-    have ihl := Plan.onlyPanics_fin l hl
-    have ihr := Plan.onlyPanics_fin r hr
-    obtain ⟨s1, hs1⟩ := Phase.run_ok_of_noFail o.phL hnl l.tr.chunks o.init
-    obtain ⟨s2, hs2⟩ := Phase.run_ok_of_noFail o.phR hnr r.tr.chunks s1
-    obtain ⟨more, hm⟩ := hend s2
-    rw [Op2.exec, ihl, Op2.cont_ok o _ _ s1 hs1, ihr]
-    simp [hs2, finish, hm]
-
 
 /-! ### prefix monotonicity of streaming loops -/
 
